@@ -71,11 +71,21 @@ func enc(e ast.Expr) N {
 		if x.Begin == nil && x.End != nil && x.Cap == nil {
 			return N{"k": "slicehi", "e": enc(x.Item), "hi": enc(x.End)}
 		}
+	case *ast.ArrayExpr:
+		if len(x.Exprs) == 0 && x.TypeData == nil {
+			return N{"k": "elist"}
+		}
 	case *ast.CallExpr:
+		if len(x.SubExprs) == 0 && !x.VarArg {
+			return N{"k": "call0", "e": N{"k": "leaf", "n": x.Name}}
+		}
 		if len(x.SubExprs) == 1 && !x.VarArg {
 			return N{"k": "call", "e": N{"k": "leaf", "n": x.Name}, "a": enc(x.SubExprs[0])}
 		}
 	case *ast.AnonCallExpr:
+		if len(x.SubExprs) == 0 && !x.VarArg {
+			return N{"k": "call0", "e": enc(x.Expr)}
+		}
 		if len(x.SubExprs) == 1 && !x.VarArg {
 			return N{"k": "call", "e": enc(x.Expr), "a": enc(x.SubExprs[0])}
 		}
@@ -183,6 +193,23 @@ func shapeOf(src string) (string, error) {
 
 var positions = []string{"x = %s", "var x = %s", "if %s { }", "for %s { break }", "return %s", "f(%s)", "f(1, %s)", "[%s]", "{\"k\": %s}", "switch %s { case 1: }",
 	"switch 1 { case %s: }", "throw %s", "c[%s]", "x = (%s)", "defer f(%s)", "for i = 0; %s; i++ { }", "x, y = 1, %s", "len(%s)"}
+
+var contexts = []string{"q = 0\ng(1, 2)", "w = [1, 2]\nz = {\"k\": 1}\nh(3)", "if a {\n f(1, 2, 3)\n}", "func hh(u, v) {\n return u, v\n}", "x = g(1)(2)\ny = [[1], [2, 3]]"}
+
+// lastShapeOf: the shape of the last top-level statement of src
+func lastShapeOf(src string) (string, error) {
+	stmt, err := parser.ParseSrc(src)
+	if err != nil {
+		return "", err
+	}
+	if ss, ok := stmt.(*ast.StmtsStmt); ok && len(ss.Stmts) > 0 {
+		var b strings.Builder
+		last := ss.Stmts[len(ss.Stmts)-1]
+		shape(reflect.ValueOf(&last).Elem(), &b, 0)
+		return b.String(), nil
+	}
+	return "", fmt.Errorf("no statements")
+}
 
 func eval(src string) string {
 	defer func() { recover() }()
@@ -300,6 +327,16 @@ func trees(in, out string) {
 			sum.Parses += 2
 			if (ea != nil) != (eb != nil) || a != b {
 				add(Mismatch{Kind: "position", Min: fmt.Sprintf(p, min), Full: fmt.Sprintf(p, full), What: "the two spellings build different trees in this statement position", Exp: b, Got: a})
+				break
+			}
+		}
+		// after other statements the expression statement builds the tree it builds alone (nothing left over from what was parsed before)
+		alone, ea := lastShapeOf(min)
+		for _, pre := range contexts {
+			got, eg := lastShapeOf(pre + "\n" + min)
+			sum.Parses++
+			if (ea != nil) != (eg != nil) || got != alone {
+				add(Mismatch{Kind: "position", Min: pre + "\n" + min, Full: min, What: "the expression parsed after other statements builds another tree than alone", Exp: alone, Got: got})
 				break
 			}
 		}
